@@ -497,7 +497,13 @@ impl<'a> RuleGen<'a> {
                 self.uses.insert("optional");
                 let k = 1 + t.weighted(&[5, 1]);
                 let mut items = vec![];
-                for _ in 0..k { let save = self.prof.variables; self.prof.variables = false; items.push(if t.chance(1, 10) { El::SBound } else { self.seg_el(t, Where::Context) }); self.prof.variables = save; }
+                for _ in 0..k {
+                    let save = self.prof.variables; self.prof.variables = false;
+                    // the grammar also allows sets (with boundary members), syllables and boundaries inside an optional
+                    let it = match t.weighted(&[16, 2, if self.prof.sets { 3 } else { 0 }, if self.prof.syll { 1 } else { 0 }]) { 0 => self.seg_el(t, Where::Context), 1 => El::SBound, 2 => self.set_el(t, Where::Context, 2), _ => self.syll_el(t, Where::Context) };
+                    items.push(it);
+                    self.prof.variables = save;
+                }
                 let (min, max, form) = match t.weighted(&[3, 3, 2, 2]) { 0 => (0, 1, 0), 1 => (0, 0, 1), 2 => (0, 1 + t.pick(3) as u32, 1), _ => { let a = t.pick(3) as u32; (a, a + 1 + t.pick(2) as u32, 2) } };
                 El::Opt { items, min, max, form }
             }
